@@ -80,6 +80,18 @@ def expand(fn, e, use, pm, depth=0):
                 if not any(isinstance(x, (ast.Await, ast.Yield, ast.Lambda)) for x in ast.walk(v)) and not any(
                         isinstance(x, ast.Name) and x.id == n.id for x in ast.walk(v)):
                     return expand(fn, v, ds[0][0], pm, depth + 1)
+            if len(ds) == 2 and all(d[1] is not None and d[2] == 'assign' and isinstance(d[0], ast.stmt) for d in ds):
+                # `if C: v = A  else: v = B` is the statement form of `v = A if C else B`
+                pa, pb = pm.get(id(ds[0][0])), pm.get(id(ds[1][0]))
+                if pa is pb and isinstance(pa, ast.If):
+                    inb = [any(d[0] is s for s in pa.body) for d in ds]
+                    ino = [any(d[0] is s for s in pa.orelse) for d in ds]
+                    if (inb[0] and ino[1]) or (inb[1] and ino[0]):
+                        a, b = (ds[0], ds[1]) if inb[0] else (ds[1], ds[0])
+                        if not any(isinstance(x, (ast.Await, ast.Yield, ast.Lambda, ast.NamedExpr)) or (isinstance(x, ast.Name) and x.id == n.id)
+                                   for v in (a[1], b[1], pa.test) for x in ast.walk(v)):
+                            return ast.IfExp(test=expand(fn, pa.test, pa, pm, depth + 1), body=expand(fn, a[1], a[0], pm, depth + 1),
+                                             orelse=expand(fn, b[1], b[0], pm, depth + 1))
             return n
 
         def _comp(self, n):
